@@ -45,6 +45,13 @@ def run(F, rep, tier):
     import c04
     c04.annotation_purity(F, rep, "ANNOTATION-PERMISSIVE")
     unknown_is_deferred(F, rep)
+    # .. and what is deferred is the check that would have run with the annotation present
+    import c03
+    c03.defer_recorded(F, rep)
+    # a type variable is bound by its position in the declaration's list
+    import engines
+    engines.order_preserved(F, rep, "ORDER-PRESERVED", ["sylt_compiler::name_resolution::"],
+                            ["sylt_compiler::name_resolution::"], 20)
     erased_return_type(F, rep)
     checker_annotation_blind(F, rep)
     annotation_is_a_fresh_instance(F, rep)
